@@ -34,8 +34,20 @@ def sig(o):
 
 
 def dist_sig(d):
+    """what the text says (family, parameters) and what the object does: the value it draws at three fixed quantiles"""
+    from .rng import ScriptedRNG
     m = re.match(r"\|?\s*([a-z_]+)\s*\((.*)\)\s*\|?$", str(d).strip())
-    return (m.group(1), [float(x) for x in m.group(2).split(",")]) if m else str(d)
+    head = (m.group(1), [float(x) for x in m.group(2).split(",")]) if m else str(d)
+    draws = []
+    # (the discrete families go through scipy's generic quantile search: ~0.1 s per draw, thousands of objects - the three fast families only)
+    for u in ((0.137, 0.5, 0.863) if isinstance(head, tuple) and head[0] in ("uniform", "gauss", "log_normal") else ()):
+        try:
+            # (a uniform variate for scipy's quantile transform, the matching normal deviate for gauss)
+            x = d.draw_mw(ScriptedRNG([], qgrid={"uniform": [u], "standard_normal": [{0.137: -1.094, 0.5: 0.0, 0.863: 1.094}[u]]}))
+            draws.append(round(float(x), 6))
+        except Exception as exc:
+            draws.append(type(exc).__name__)
+    return (head, draws)
 
 
 def strip_ext(s):
@@ -204,7 +216,7 @@ def run(tier):
     # parser accepts has to round-trip
     import itertools
     comps_ = ["CCCO", "CC(C)O", "CC{[$][$]CC[$][$]}|gauss(60, 5)|CO"]
-    specs_ = [".|0%|", ".|25%|", ".|50%|", ".|75%|", ".|100%|", ".|0|", ".|500|", ".|1500|", ""]
+    specs_ = [".|0%|", ".|25%|", ".|33.33333%|", ".|50%|", ".|75%|", ".|100%|", ".|0|", ".|500|", ".|1500|", ""]     # (a third: the remainder of the last component is no round number)
     n_sys = 0
     for k in (2, 3):
         for combo in itertools.product(specs_, repeat=k):
@@ -213,6 +225,11 @@ def run(tier):
             text = "".join(c + sp for c, sp in zip(comps_, combo))
             n_sys += 1
             do("system", text, g.System, gen=False)
+    # distributions whose written parameters are not what the object keeps (uniform truncates to integers): the canonical string has to
+    # denote the law the parsed object draws from
+    from .gast import M as M_, S as S_
+    for fam_, par_ in (("uniform", [12.9, 72.1]), ("uniform", [20.9, 90.1]), ("gauss", [45.5, 7.25]), ("log_normal", [80.5, 1.15]), ("schulz_zimm", [120.5, 100.25])):
+        do("molecule", M_("C[>]", S_("[>]", ["[<]CC[>]"], [], "[<]", (fam_, par_)), "[<]O").text(), g.Molecule, gen=True, single=True)
     # instance library and seeded archetypes
     lib = I.core_instances() + I.extra_instances() + I.chem_instances(tier) + [I.random_instance(rnd, "small") for _ in range(40 if tier == "quick" else 300)]
     for m in lib:
